@@ -2,9 +2,30 @@
 package props
 
 import (
+	"io"
+	"log/slog"
+
+	"verif/sim"
+
+	"github.com/tsuna/gohbase"
 	"github.com/tsuna/gohbase/region"
 )
 
 // testRegion is a region descriptor for calls that are serialised without
 // going through the routing layer.
 var testRegion = region.NewInfo(1, nil, []byte("t"), []byte("t,,1.abcdef."), nil, nil)
+
+// quietLogger discards everything.
+var quietLogger = slog.New(slog.NewTextHandler(io.Discard, &slog.HandlerOptions{Level: slog.LevelError + 100}))
+
+// newClient creates a real gohbase client talking to the simulated cluster.
+func newClient(c *sim.Cluster, opts ...gohbase.Option) gohbase.Client {
+	base := []gohbase.Option{gohbase.RegionDialer(c.Dialer()), gohbase.Logger(quietLogger)}
+	return gohbase.VerifNewClient(c.ZK(), append(base, opts...)...)
+}
+
+// newAdminClient creates a real gohbase admin client talking to the simulated master.
+func newAdminClient(c *sim.Cluster, opts ...gohbase.Option) gohbase.AdminClient {
+	base := []gohbase.Option{gohbase.RegionDialer(c.Dialer()), gohbase.Logger(quietLogger)}
+	return gohbase.VerifNewAdminClient(c.ZK(), append(base, opts...)...)
+}
